@@ -10,16 +10,17 @@ LEVEL = 'proof'
 TIE = {'approval.ProportionalApproval / SequentialProportionalApproval': 'correspondence',
        'convert.ScoreToSimpleVotes (corrections, truncation, aggregation), cardinal.ScoreVoting, MajorityJudgment (default, plus)': 'correspondence',
        'cardinal.STAR (default configuration; Schulze run-off with the candidate order of the pairwise dictionary, results compared as sets)': 'correspondence',
-       'cardinal.AllocatedScoreSelector / AllocatedScoreDistributor (prev_gains, max_seats; the iteration order of a Tie frozenset is an argument of the model, read off Python per candidate set)': 'correspondence'}
+       'cardinal.AllocatedScoreSelector / AllocatedScoreDistributor (prev_gains, max_seats; the iteration order of a Tie frozenset is an argument of the model, read off Python per candidate set)': 'correspondence',
+       'wave 6: the flagged definitions of the repaired code (Cardinal.v correct_scores_x / aggregate_one_w / mj_default_x / majority_judgment_x, AllocScore.v fraction_out_r / round_scores / alloc_select_x) through wire units 192..195; flags set by behavioural probes of the library under test': 'correspondence'}
 RULE = ('corpus; approval profiles over 2..6 candidates (1..7 distinct ballots, weights 1..5) x n 1..|C| through PAV (fresh object per '
         'call and a shared object) and SPAV; score profiles over 2..5 candidates, grades 0..5, partial ballots, through ScoreVoting and '
         'MajorityJudgment with function in {mean,sum,median_low}, unscored_value in {None,0,min}, min_count in {0,2}, truncation in {0,1,1/10}, '
-        'tie_breaking in {default,plus}; a single-seat stream of complete ballots with grades 0..2 (level medians, close STAR run-offs); n-seat boundary streams mj-seats-level (few grades / end-mutated copies of one grade column: equal medians at the cut, long common removal prefixes, multi-copy steps) and star-seats (tied finalist cuts, unseparated finalists, 3..5-member run-offs), both judged by independent references of the proved statements (removal-sequence order, plus counts, Schulze over the run-off supports); STAR through the model and (run-off of two) a reference; allocated score (selector; distributor with prev_gains / max_seats; Hare and Droop; 1..m seats; integer and fractional weights; few-grade profiles with level leaders) through Model/AllocScore.v - order of election and exception class compared exactly - and against an independent Python reference. Declarative '
+        'tie_breaking in {default,plus}; a single-seat stream of complete ballots with grades 0..2 (level medians, close STAR run-offs); n-seat boundary streams mj-seats-level (few grades / end-mutated copies of one grade column: equal medians at the cut, long common removal prefixes, multi-copy steps) and star-seats (tied finalist cuts, unseparated finalists, 3..5-member run-offs), both judged by independent references of the proved statements (removal-sequence order, plus counts, Schulze over the run-off supports); STAR through the model and (run-off of two) a reference; allocated score (selector; distributor with prev_gains / max_seats; Hare and Droop; 1..m seats; integer and fractional weights; few-grade profiles with level leaders) through Model/AllocScore.v - order of election and exception class compared exactly - and against an independent Python reference; score-counted: ballot counts around 10^12 and 10^25 + 7 with one-vote differences through the counted aggregates (run-length references). Declarative '
         'clauses on implementation outputs: PAV committee = unique brute-force maximiser of the harmonic satisfaction (refusal iff not unique) '
         'and satisfies justified representation; SPAV round = unique argmax. non-trivial = more than two ballots; distinct by case hash')
-PARTIAL = ['allocated score: the clause is proved for every round without a tie and positive ballot weights; rounds with level leaders follow the code (all elected in set-iteration order, or one tie entry for several seats: C12_alloc_tie_*_refuted) and the ValueError of the subtraction loop is characterised exactly (crash_cond, C12_alloc_crash_refuted)',
+PARTIAL = ['allocated score (repaired, wave 6): the clause is proved for every round without a tie and positive ballot weights, the loop has no error outcome (C12_alloc_answers) and the selector returns a well-shaped selection (C08_shape_allocated_score); rounds with level leaders follow the code - all seated in set-iteration order without re-running the maximum (C12_alloc_tie_second_refuted, C10_allocated_score_tie_order_refuted: known findings left to the maintainers)',
            'STAR: proved for the default configuration (run-off of n + 1, unscored below every scored candidate): table = supports, exact short class, complete one-seat table, Schulze over the table for n seats (C12_star_*); a configured unscored_value / other run-off sizes are judged by the Python reference only',
-           'MJ for n seats: the theorems (C12_mj_seats_*) are about answers; StatisticsError / VotingSystemError (reference order undefined at the cut) and the sufficiency of the fuel are compared, not proved',
+           'MJ for n seats: the theorems (C12_mj_seats_*, repaired: C12_mj_exhausted_*) are about answers; that a separated top-n set always gets an answer (completeness; VotingSystemError only for a lasting tie) is compared, not proved; the fuel of the repaired loop is proved sufficient (C12_mj_fuel_sufficient)',
            'score voting: a non-integer truncation >= 1 is floored by the model (outside the quantified settings)']
 TRUSTED = []
 _shared = {}
@@ -47,21 +48,61 @@ def model_line(c):
     if u == 'spav':
         return '%d (%s %d)' % (U['spav'], ap_sx(c['votes']), c['n'])
     if u == 'score':
-        return '%d (%s %s %d)' % (U['score_voting'], cfg_sx(c['cfg']), sp_sx(c['votes']), c['n'])
+        # wave 6: the flagged units of Units_C12.v with every repair applied (fixes/C12-truncation-middle,
+        # C12-mj-default-exhausted, C12-score-counted)
+        return '%d (%s %s %s %d)' % (BLOCK['C12'] + 2, REPAIRS(c), cfg_sx(c['cfg']), sp_sx(c['votes']), c['n'])
     if u == 'mj':
-        return '%d (%d %s %s %d)' % (U['mj'], 1 if c['plus'] else 0, cfg_sx(dict(c['cfg'], fn='median_low')), sp_sx(c['votes']), c['n'])
+        return '%d (%s %d %s %s %d)' % (BLOCK['C12'] + 3, REPAIRS(c), 1 if c['plus'] else 0, cfg_sx(dict(c['cfg'], fn='median_low')), sp_sx(c['votes']), c['n'])
     if u == 'star' and c.get('unscored', 'none') == 'none':
         return '%d (%s %d)' % (BLOCK['C12'], sp_sx(c['votes']), c['n'])
     if u == 'alloc':
         # Model/AllocScore.v: (mode quota tie-orders votes n prev_gains max_seats)
-        return '%d (%d %s %s %s %d %s %s)' % (
-            BLOCK['C12'] + 1, 1 if c.get('mode') == 'dist' else 0, {'hare': '(1)', 'droop': '(3)'}[c['quota']],
+        return '%d (%s %d %s %s %s %d %s %s)' % (
+            BLOCK['C12'] + 4, AREPAIRS(c), 1 if c.get('mode') == 'dist' else 0, {'hare': '(1)', 'droop': '(3)'}[c['quota']],
             sx(tie_orders(c)), sx([[[[cc, q(s)] for cc, s in sorted(b)], q(w)] for b, w in c['votes']]), c['n'],
             sx([[k, v] for k, v in c.get('prev', [])]), sx([[k, v] for k, v in c.get('max', [])]))
     return '%d (%s %d)' % (U['pav'], '()', 0)          # STAR with an unscored_value: no model (placeholder line)
 
 
 _ORDERS = {}
+
+
+_PROBE = {}
+
+
+def probes():
+    """which of the wave-6 repairs the library under test carries (behavioural probes on the recorded witnesses): the
+    flags of Model/Cardinal.v [repairs] / Model/AllocScore.v [arepairs] follow them, so the correspondence stays exact on
+    a tree where a repair is missing - and the crash / mis-shape it repaired is reported there as a VIOLATION (the
+    findings are status fixed), with its replay"""
+    if _PROBE:
+        return _PROBE
+    import votelib.evaluate.cardinal as cd
+
+    def answers(fn):
+        try:
+            return fn()
+        except Exception:   # noqa
+            return None
+    f = lambda **kw: frozenset(kw.items())    # noqa
+    _PROBE['trunc'] = answers(lambda: cd.ScoreVoting('mean', truncation=2).evaluate({f(A=3): 2, f(B=1): 5}, 1)) is not None
+    _PROBE['mj'] = answers(lambda: cd.MajorityJudgment().evaluate({f(A=1): 1, f(B=1): 3}, 1)) is not None
+    # a fractional vote count cannot be expanded to one list element per voter (TypeError from range)
+    _PROBE['counted'] = answers(lambda: cd.ScoreVoting('sum').evaluate({f(A=1): Fraction(3, 2), f(B=0): 1}, 1)) is not None
+    _PROBE['exhausted'] = answers(lambda: cd.AllocatedScoreSelector('hare').evaluate({f(A=5): 4, f(B=5): 2}, 2)) is not None
+    r = answers(lambda: cd.AllocatedScoreSelector('hare').evaluate({f(A=1): 1, f(B=1): 1, f(C=1): 1}, 2))
+    _PROBE['tieseats'] = r is not None and len(r) == 2
+    return _PROBE
+
+
+def REPAIRS(c):
+    p = probes()
+    return '(%d %d %d)' % (p['trunc'], p['mj'], p['counted'])
+
+
+def AREPAIRS(c):
+    p = probes()
+    return '(%d %d)' % (p['exhausted'], p['tieseats'])
 
 
 def tie_orders(c):
@@ -218,8 +259,10 @@ def jr_ok(votes, n, winners):
 def corrected_lists(cf, votes):
     """independent re-implementation of the documented corrections: per candidate the sorted list of its scores after
     min_count (fewer scores -> min_count copies of bottom_value), unscored_value (one copy per voter who did not score it)
-    and truncation (the c lowest and the c highest scores dropped; c = truncation when >= 1, else int(voters * truncation))
-    - C12_score_corrections / C12_score_truncation.  A candidate left without scores has an empty list"""
+    and truncation (the c lowest and the c highest scores dropped; c = truncation when >= 1, else int(voters * truncation),
+    but never past the middle: at most (scores - 1) // 2 at either end, repair C12-truncation-middle)
+    - C12_score_corrections / C12_score_truncation / C12_truncation_keeps_middle.  A candidate is left without scores only
+    when it had none (an empty list)"""
     cands = sorted({cc for b, _ in votes for cc, _ in b})
     nv = sum(w for _, w in votes)
     tr = q(cf['trunc'])
@@ -240,7 +283,50 @@ def corrected_lists(cf, votes):
         lst.sort()
         if tr > 0:
             cut = int(tr) if tr >= 1 else int((nv if nv else n_scores) * tr)
-            lst = lst[cut:len(lst) - cut] if len(lst) > 2 * cut else []
+            cut = max(0, min(cut, (len(lst) - 1) // 2))
+            lst = lst[cut:len(lst) - cut]
+        out[cc] = lst
+    return out
+
+
+BIG = 20000       # above this many voters the list-based references give way to the run-length ones
+
+
+def corrected_runs(cf, votes):
+    """the same corrections on run-length encoded sorted score lists [(score, copies), ...] - for vote counts that do not fit
+    a list with one element per voter"""
+    cands = sorted({cc for b, _ in votes for cc, _ in b})
+    nv = sum(w for _, w in votes)
+    tr = q(cf['trunc'])
+    out = {}
+    for cc in cands:
+        runs = {}
+        for b, w in votes:
+            for c2, s in b:
+                if c2 == cc:
+                    runs[q(s)] = runs.get(q(s), 0) + w
+        n_scores = sum(runs.values())
+        if n_scores < cf['min_count']:
+            out[cc] = [(q(cf['bottom']), cf['min_count'])]
+            continue
+        if cf['unscored'] != 'none':
+            u = min(runs) if cf['unscored'] == 'min' else q(cf['unscored'])
+            runs[u] = runs.get(u, 0) + (nv - n_scores)
+        lst = sorted((v, k) for v, k in runs.items() if k > 0)
+        total = sum(k for _, k in lst)
+        if tr > 0:
+            cut = int(tr) if tr >= 1 else int((nv if nv else n_scores) * tr)
+            cut = max(0, min(cut, (total - 1) // 2))
+            for side in (0, -1):
+                left = cut
+                while left and lst:
+                    v, k = lst[side]
+                    if k <= left:
+                        lst.pop(side)
+                        left -= k
+                    else:
+                        lst[side] = (v, k - left)
+                        left = 0
         out[cc] = lst
     return out
 
@@ -248,6 +334,23 @@ def corrected_lists(cf, votes):
 def score_ref(cf, votes):
     """the configured exact aggregate of every candidate (None when some candidate is left without scores)"""
     out = {}
+    if sum(w for _, w in votes) > BIG:
+        for cc, runs in corrected_runs(cf, votes).items():
+            total = sum(k for _, k in runs)
+            if not total:
+                return None
+            if cf['fn'] == 'sum':
+                out[cc] = sum(v * k for v, k in runs)
+            elif cf['fn'] == 'mean':
+                out[cc] = Fraction(sum(v * k for v, k in runs), total)
+            else:
+                seen = 0
+                for v, k in runs:
+                    seen += k
+                    if seen > (total - 1) // 2:
+                        out[cc] = v
+                        break
+        return out
     for cc, lst in corrected_lists(cf, votes).items():
         if not lst:
             return None
@@ -262,6 +365,8 @@ def score_ref(cf, votes):
 
 def mj_lists(cf, votes):
     """per candidate the sorted list of corrected scores (None when some candidate is left without scores)"""
+    if sum(w for _, w in votes) > BIG:
+        return None
     out = corrected_lists(cf, votes)
     return None if any(not l for l in out.values()) else out
 
@@ -269,12 +374,17 @@ def mj_lists(cf, votes):
 def mj_ref(lists):
     """majority judgment for one seat as documented (Balinski-Laraki): the highest lower median wins; equal medians:
     remove one median grade from every candidate still level and compare the new medians, the candidates that fall
-    behind are out for good.  None when the outcome is undefined (a lasting tie, or a leader runs out of scores)."""
+    behind are out for good; a level candidate that has run out of grades is behind those that still have some
+    (repair C12-mj-default-exhausted).  None when the outcome is undefined (a lasting tie)."""
     cur = {cc: list(l) for cc, l in lists.items()}
     alive = set(cur)
     while True:
         if any(not cur[cc] for cc in alive):
-            return None
+            alive = {cc for cc in alive if cur[cc]}
+            if not alive:
+                return None
+            if len(alive) == 1:
+                return next(iter(alive))
         med = {cc: cur[cc][(len(cur[cc]) - 1) // 2] for cc in alive}
         top = max(med.values())
         alive = {cc for cc in alive if med[cc] == top}
@@ -296,18 +406,21 @@ def mj_removal_seq(l):
 
 
 def mj_seq_cmp(sa, sb):
-    """lexicographic comparison of two removal sequences: -1 / 1 at the first entry where they differ; None when one of
-    them ends before any difference (the order of the two candidates is then undefined)"""
+    """lexicographic comparison of two removal sequences: -1 / 1 at the first entry where they differ; a sequence that
+    ends before any difference (the candidate has run out of grades) is below the longer one (repair
+    C12-mj-default-exhausted); None when the sequences are the same"""
     for x, y in zip(sa, sb):
         if x != y:
             return -1 if x < y else 1
+    if len(sa) != len(sb):
+        return -1 if len(sa) < len(sb) else 1
     return None
 
 
 def mj_top(lists, n):
     """majority judgment for n seats as documented, declaratively: the set of n candidates each of which is
     lexicographically strictly above every candidate outside the set (C12_mj_seats_default); None when no such set
-    exists (an unbreakable tie at the cut, or a candidate at the cut runs out of grades)"""
+    exists (an unbreakable tie at the cut: equal removal sequences)"""
     cands = sorted(lists)
     if n >= len(cands):
         return set(cands)
@@ -425,8 +538,10 @@ def star_seats_spec(c, v):
 
 def alloc_ref(votes, n, quota_name):
     """independent allocated-score count: per seat the highest weighted score sum wins and one quota of its
-    strongest supporters (highest score for the winner first, proportional cut at the boundary) is spent.
-    Returns None when a tie or an exhausted electorate makes the outcome undefined."""
+    strongest supporters (highest score for the winner first, proportional cut at the boundary) is spent; once no
+    remaining ballot scores anybody the candidates not yet seated are level at zero (repair
+    C12-allocated-score-exhausted).  Returns None when a tie makes the outcome undefined."""
+    every = sorted({cc for b, _ in votes for cc, _ in b})
     cur = [[dict(b), q(w)] for b, w in votes]
     total = sum(q(w) for _, w in votes)
     quota = Fraction(total, n) if quota_name == 'hare' else Fraction(int(Fraction(total, n + 1)) + 1)
@@ -438,7 +553,9 @@ def alloc_ref(votes, n, quota_name):
                 if cc not in elected:
                     sums[cc] = sums.get(cc, 0) + q(sc) * w
         if not sums:
-            return None
+            sums = {cc: 0 for cc in every if cc not in elected}
+            if not sums:
+                return elected
         top = max(sums.values())
         best = [cc for cc, x in sums.items() if x == top]
         if len(best) != 1:
@@ -461,8 +578,6 @@ def alloc_ref(votes, n, quota_name):
                 break
         cur = [[{cc: sc for cc, sc in b.items() if cc != win}, w] for b, w in cur if w > 0]
         cur = [x for x in cur if x[0]]
-        if not cur and len(elected) < n:
-            return None
     return elected
 
 
@@ -600,6 +715,12 @@ def spec(c, io, mo):
         c['_class'] = u + '-crash'
         return '%s raises %s' % (u, c.get('_exc'))
     if u == 'alloc' and c.get('mode') == 'dist':
+        if v[0] == 0:
+            # C08 for the distributor: positive seat numbers that sum to the seats to fill (no more than that under maxima)
+            seats = [k for _, k in v[1]]
+            if any(k <= 0 for k in seats) or sum(seats) > c['n'] or (not c.get('max') and sum(seats) != c['n']):
+                c['_class'] = 'alloc-shape'
+                return 'allocated score distributes %s for %d seats' % (v[1], c['n'])
         return None
     if u == 'alloc' and v[0] == 0 and not any(isinstance(r, list) for r in v[1]):
         ref = alloc_ref(c['votes'], c['n'], c['quota'])
@@ -615,12 +736,18 @@ def spec(c, io, mo):
             return ('allocated score seats %s in round %d with weighted score sum %s while %s has %s%s'
                     % (win, rnd, mine, other, top, ' (it was level with an earlier winner when that one was seated)' if tied else ''))
     if u == 'alloc' and v[0] == 0:
+        # C08_shape_allocated_score: min(n, candidates) entries; plain winners distinct candidates of the votes; a tie
+        # stands last, is listed once per seat it contests, has more members than those seats and none of the winners
         cands = {cc for b, _ in c['votes'] for cc, _ in b}
         res = v[1]
-        flat = [x for r in res if not isinstance(r, list) for x in [r]]
-        if len(cands) >= c['n'] and (len(res) != c['n'] and not any(isinstance(r, list) for r in res)) or len(set(flat)) != len(flat):
+        plain = [r for r in res if not isinstance(r, list)]
+        ties = [tuple(sorted(r)) for r in res if isinstance(r, list)]
+        bad = (len(res) != min(c['n'], len(cands)) or len(set(plain)) != len(plain) or any(x not in cands for x in plain)
+               or len(set(ties)) > 1 or any(isinstance(r, list) for r in res[:len(plain)])
+               or (ties and (len(ties[0]) <= len(ties) or set(ties[0]) & set(plain) or not set(ties[0]) <= cands)))
+        if bad:
             c['_class'] = 'alloc-shape'
-            return 'allocated score returns %s for %d seats' % (res, c['n'])
+            return 'allocated score returns %s for %d seats and %d candidates' % (res, c['n'], len(cands))
     return None
 
 
@@ -648,8 +775,9 @@ def known_class(c, io, mo):
         return None          # not the recorded behaviour any more (allocated score: the model reproduces the crash / shape)
     if c.get('_class') == 'alloc-crash' and common.parse_sx(io)[1] not in (common.E['VALUE'], common.E['INDEX']):
         return None
-    return {'trunc-empty': 'C12-truncation-empties', 'mj-default-stats': 'C12-mj-default-stats', 'alloc-crash': 'C12-allocated-score-crash', 'alloc-shape': 'C12-allocated-score-crash', 'alloc-tie-second': 'C12-allocated-score-tie-second',
-            'star-crash': 'C12-star'}.get(c.get('_class'))
+    # wave 6: trunc-empty, mj-default-stats, alloc-crash, alloc-shape are repaired (status fixed): a crash or a
+    # mis-shaped selection is a violation again
+    return {'alloc-tie-second': 'C12-allocated-score-tie-second', 'star-crash': 'C12-star'}.get(c.get('_class'))
 
 
 def nontrivial(c):
@@ -907,6 +1035,34 @@ def gen_score_trunc(rng, count):
         yield c
 
 
+def gen_counted(rng, count):
+    """boundary stream for the counted aggregates (fixes/C12-score-counted, Model/Cardinal.v aggregate_one_w / pos_keys): ballot
+    counts around 10^12 and 10^25 with differences of one vote (sum, mean, low median, the minimum for unscored_value = 'min',
+    a truncation fraction cutting whole numbers of votes), where a list with one element per voter cannot be built; score voting
+    and majority judgment (plus rule, or medians that decide); the default tie-break on counts of a few hundred (its model
+    fuel is a unary number).  Grades include a negative and a fractional one."""
+    for _ in range(count):
+        m = rng.randint(2, 4)
+        base = rng.choice([10 ** 12, 10 ** 12, 10 ** 25 + 7, 3 * 10 ** 9])
+        u = rng.choice(['score', 'score', 'mj', 'mjd'])
+        if u == 'mjd':
+            base = rng.choice([20, 50, 100])
+        rows = {}
+        grades = [0, 1, 2, 3, 5, -1, '1/2']
+        for _ in range(rng.randint(2, 5)):
+            cs = sorted(rng.sample(range(1, m + 1), rng.randint(1, m)))
+            b = tuple((cc, rng.choice(grades[:5] if rng.random() < 0.8 else grades)) for cc in cs)
+            rows[b] = base * rng.randint(1, 3) + rng.choice([0, 0, 1, -1, 2])
+        votes = [[[list(x) for x in b], w] for b, w in rows.items()]
+        mm = len({cc for b, _ in votes for cc, _ in b})
+        cfg = dict(fn=rng.choice(['mean', 'sum', 'median_low']), unscored=rng.choice(['none', 'none', '0', 'min']),
+                   min_count=rng.choice([0, 0, 2]), trunc=rng.choice(['0', '0', '1/10', '1/4', '1', '1/2']), bottom='0')
+        if u == 'score':
+            yield dict(unit='score', votes=votes, n=rng.randint(1, mm), cfg=cfg)
+        else:
+            yield dict(unit='mj', votes=votes, n=rng.randint(1, mm), cfg=dict(cfg, fn='median_low'), plus=(u == 'mj'))
+
+
 def corpus():
     import os, json, glob
     for p in sorted(glob.glob(os.path.join(common.VERIF, 'corpus', ID, '*.json'))):
@@ -921,6 +1077,8 @@ def explore(ctx, widen=1):
     ctx.differential('mj-seats-level', gen_mj_seats(ctx.rng, ctx.n(3000, 30000) * widen), model_line, impl, **kw)
     ctx.differential('star-seats', gen_star_seats(ctx.rng, ctx.n(2500, 25000) * widen), model_line, impl, **kw)
     ctx.differential('score-trunc', gen_score_trunc(ctx.rng, ctx.n(1500, 15000) * widen), model_line, impl, **kw)
+    if probes()['counted']:
+        ctx.differential('score-counted', gen_counted(ctx.rng, ctx.n(1200, 12000) * widen), model_line, impl, **kw)
     ctx.differential('alloc-exact-quota', gen_alloc_exact(ctx.rng, ctx.n(3000, 20000) * widen), model_line, impl, **kw)
     ctx.differential('alloc-model', gen_alloc_model(ctx.rng, ctx.n(4000, 40000) * widen), model_line, impl, **kw)
 
